@@ -88,14 +88,17 @@ def rule_cut(ctx, R="C20.1"):
 
 def rule_seeds(ctx, R="C20.2"):
     ctx.rule(R, "the value environment starts empty and the degree environment starts from the parameter seeds only; basic blocks forward propagation to every statement")
-    fn = find_fn(CFG, "propagate_values", "Cfg")
-    if fn is not None:
-        le = let_env(fn["body"])
-        ctx.check(R, "Cfg::propagate_values/environment-starts-empty", "env" in le and render(strip(le["env"])).replace(" ", "") == "ValueEnvironment::new(&self.constants)", render(le.get("env")) if "env" in le else "?", site(CFG, fn))
-    fn = find_fn(CFG, "propagate_degrees", "Cfg")
-    if fn is not None:
-        le = let_env(fn["body"])
-        ctx.check(R, "Cfg::propagate_degrees/environment-starts-empty", "env" in le and render(strip(le["env"])).replace(" ", "") == "DegreeEnvironment::new()", render(le.get("env")) if "env" in le else "?", site(CFG, fn))
+    import sgrep
+
+    for kind, init in (("values", "ValueEnvironment::new(&self.constants)"), ("degrees", "DegreeEnvironment::new()")):
+        fn = find_fn(CFG, "propagate_" + kind, "Cfg")
+        if fn is None:
+            continue
+        le = sgrep.lets(fn["body"])
+        # the environment is whatever is handed to the basic blocks' propagate_<kind>
+        envs = {render(strip(c["args"][0])) for c in walk(fn["body"]) if c["k"] == "MethodCall" and c["method"] == "propagate_" + kind and c["args"]}
+        ok = len(envs) == 1 and all(e in le and sgrep.match(sgrep.pattern(init), le[e], {}) for e in envs)
+        ctx.check(R, "Cfg::propagate_%s/environment-starts-empty" % kind, ok, "environment(s) handed to the blocks: %s = %s" % (sorted(envs), [render(le[e]) for e in envs if e in le]), site(CFG, fn))
     for kind in ("values", "degrees"):
         f = find_fn(BB, "propagate_" + kind, "BasicBlock")
         if f is None:
